@@ -4,7 +4,8 @@
 Require Extraction.
 Require Import ExtrOcamlBasic.
 From FQ Require Import Lib.ListX Lib.Mat Model.Types Model.Hardcode Model.Compact Model.Encode Model.Poly
-  Model.Default Model.Masking Model.Score Model.Placement Model.Qr Model.Helpers.
+  Model.Default Model.Masking Model.Score Model.Placement Model.Qr Model.Helpers
+  Spec.IsoTable9 Spec.Iso Spec.Gf Spec.Oracles Spec.Penalty.
 Extraction Language OCaml.
 Separate Extraction
   Types.cell_byte Types.ecl_of_idx Types.mode_of_idx Types.ecl_idx Types.mode_idx
@@ -16,5 +17,8 @@ Separate Extraction
   Masking.apply_mask
   Placement.place_data Placement.select_trace
   Score.line Score.lines_score Score.dark_score Score.squares Score.score
-  Qr.build Qr.build_trace Qr.no_options
-  Helpers.print_matrix_with_margin.
+  Qr.build Qr.build_unchecked Qr.build_trace Qr.no_options
+  Helpers.print_matrix_with_margin
+  Iso.iso_decode Iso.iso_min_version Iso.iso_codewords Iso.iso_region_map
+  Oracles.oracle_fixed Oracles.oracle_labels Oracles.oracle_format Oracles.oracle_rs Oracles.oracle_data_codewords
+  Oracles.oracle_mask Oracles.oracle_mode Oracles.oracle_ec Oracles.vals_of Penalty.oracle_penalty.
